@@ -1134,6 +1134,86 @@ func (m *Model) ruleREGISTRY(r *Results) {
 			r.check(ok, rule, name+" / files removed on every path", pos, "deleting a bucket always reaches the removal of its files", "deleting a bucket can return without removing its files (e.g. when it is no longer registered): CloseAndDelete reports success but the data survives and can be reopened")
 		}
 	}
+	// (a') a registry method that hands a bucket out hands out a COPY: the stored pointer is the
+	// shared store object, and a caller that closes "its handle" would close everybody's
+	for _, fn := range m.Funcs {
+		if !isRegMethod(fn) || fn.Parent() != nil {
+			continue
+		}
+		res := fn.Signature.Results()
+		for i := 0; i < res.Len(); i++ {
+			pt, ok := res.At(i).Type().(*types.Pointer)
+			if !ok || pt.Elem() != types.Type(a.BucketType) {
+				continue
+			}
+			bad := ""
+			var chk func(v ssa.Value, depth int, pos string)
+			chk = func(v ssa.Value, depth int, pos string) {
+				v = stripConv(v)
+				if depth > 4 {
+					return
+				}
+				switch x := v.(type) {
+				case *ssa.Const:
+				case *ssa.Phi:
+					for _, e := range x.Edges {
+						chk(e, depth+1, pos)
+					}
+				case *ssa.Call:
+					if g := x.Common().StaticCallee(); g != a.CloneFn {
+						// a helper of the registry whose own result is a copy on every return
+						if g == nil || !isRegMethod(g) || g.Blocks == nil || g.Signature.Results().Len() != 1 {
+							bad = pos
+							return
+						}
+						for _, ret := range returnsOf(g) {
+							chk(ret.Results[0], depth+1, m.instrPos(ret))
+						}
+					}
+				case *ssa.Extract:
+					// one result of a registry helper that returns several
+					c, _ := x.Tuple.(*ssa.Call)
+					var g *ssa.Function
+					if c != nil {
+						g = c.Common().StaticCallee()
+					}
+					if g == nil || !isRegMethod(g) || g.Blocks == nil {
+						bad = pos
+						return
+					}
+					for _, ret := range returnsOf(g) {
+						if x.Index < len(ret.Results) {
+							chk(ret.Results[x.Index], depth+1, m.instrPos(ret))
+						}
+					}
+				case *ssa.UnOp:
+					// a result spilled into a cell because of a defer: what the returns store there
+					al, isAl := x.X.(*ssa.Alloc)
+					if !isAl || x.Op != token.MUL || al.Referrers() == nil {
+						bad = pos
+						return
+					}
+					for _, ref := range *al.Referrers() {
+						if st, ok := ref.(*ssa.Store); ok && st.Addr == ssa.Value(al) {
+							chk(st.Val, depth+1, m.instrPos(st))
+						}
+					}
+				default:
+					bad = pos
+				}
+			}
+			for _, ret := range returnsOf(fn) {
+				if i < len(ret.Results) {
+					chk(ret.Results[i], 0, m.instrPos(ret))
+				}
+			}
+			pos := m.pos(fn.Pos())
+			if bad != "" {
+				pos = bad
+			}
+			r.check(bad == "", rule, m.declName(fn)+" / hands out copies only", pos, "every bucket the method returns is the result of the handle-copy function (or nil)", "the registry method returns a bucket that is not a fresh copy (the stored object itself, or the caller's): handles then share one `closed` flag and one reference, so closing one handle disables the others")
+		}
+	}
 	// (d) Close is idempotent: unregister reachable only when the handle was not closed before, flag set under the lock
 	// the registry methods that shut the store down, themselves or through a helper of the registry
 	unregs := map[*ssa.Function]bool{}
